@@ -214,8 +214,20 @@ def gen(rng, kind, tier):
     if kind == "emulsion":
         dim = int(rng.choice([1, 2, 2, 3]))
         spec = _rand_grid(rng, dim, tier)
+        if spec["family"] == "cart" and rng.random() < 0.2:
+            # a box far away from the origin of the coordinate system (10^6..10^8 cell sizes): positions then carry
+            # only 8-10 significant digits relative to a cell, which the relational clauses of this kind tolerate
+            b = np.asarray(spec["bounds"], float)
+            hh = (b[:, 1] - b[:, 0]) / np.asarray(spec["shape"], float)
+            off = np.array([float(rng.choice([-1.0, 1.0])) * 10.0 ** int(rng.integers(6, 9)) for _ in range(dim)]) * hh
+            spec["bounds"] = [[float(b[a, 0] + off[a]), float(b[a, 0] + off[a] + hh[a] * spec["shape"][a])] for a in range(dim)]
+            spec["far_origin"] = True
+            if rng.random() < 0.5:
+                spec["periodic"] = [False] * dim
         k = int(rng.integers(0, 6))
         cls = None
+        if rng.random() < 0.25:
+            cls = "SphericalDroplet"  # emulsions of one class
         drops = [_rand_droplet(rng, spec, cls) for _ in range(k)]
         return {"grid": spec, "droplets": drops}
     raise ValueError(kind)
